@@ -164,7 +164,7 @@ func c18Run(s *c18Scn, segName string, enc *json.Encoder, mu *sync.Mutex) verdic
 		}
 
 		if k < len(s.NextTimeout) && s.NextTimeout[k] {
-			nt := 300 * time.Millisecond
+			nt := 1200 * time.Millisecond
 
 			for _, sg := range s.Segs {
 				if strings.HasSuffix(sg, "-long") {
@@ -315,7 +315,7 @@ func c18Run(s *c18Scn, segName string, enc *json.Encoder, mu *sync.Mutex) verdic
 
 	// the time the operation waits for a trigger: long enough for the device to deliver what it says (a listing of 1 150 bytes, one
 	// byte per read, on a loaded machine) - what is compared at a time-out is everything the device delivered
-	opWait := 250 * time.Millisecond
+	opWait := time.Second
 
 	for _, sg := range s.Segs {
 		if strings.HasSuffix(sg, "-long") {
